@@ -155,8 +155,12 @@ func (g *Gen) arg() string {
 			return `"}" x`
 		}
 		return `"}x"`
-	case x < 93:
+	case x < 92:
 		return "x$()"
+	case x < 93:
+		// the same reference several times, nested and overlapping forms
+		m := g.pick(MacroNames)
+		return g.pick([]string{"x$(" + m + ")$(" + m + ")b)", "$($(" + m + "))", "a$(" + m + "$(" + m + "))", "$(" + m + ")-$(" + m + ")-$(" + m + ")"})
 	case x < 96:
 		return `a\"b`
 	default:
@@ -440,3 +444,11 @@ func (g *Gen) Raw() string {
 	}
 	return b.String()
 }
+
+// TreeWords are argument texts for directly generated trees (the harness keeps the expressible ones).
+var TreeWords = []string{"x", "example.org", "with space", "multi\nline", "two\n\nbreaks", "q\"uote", "\\\\", "a\\\\\"b", "#hash", "a#b",
+	"a{b", "}x", "{x", "$", "$1@$3", "(p)", "", " ", "\t", "\u00e9", "\u65e5\u672c", "tcp:0.0.0.0:25", "=", "a b  c", "\r", "x\r\ny", "'", "\\n",
+	"\u00a0", "\ufeff", "\u2028", "import", "{", "}", "\\", "$(m1)", "{env:H}"}
+
+// TreeNames are directive names for directly generated trees.
+var TreeNames = []string{"a", "smtp", "auth.pass_table", "x-y_z", "\u00e9t\u00e9", "\u65e5\u672c", "d9", "_", "a.b-c_d"}
